@@ -4,7 +4,7 @@
   event is due at the current height, and that record by exactly one `slashOnce`.
 -/
 import DymVerif.Lemmas.CoreLevOwn
-namespace DymVerif.Core.LevNs
+namespace DymVerif.Core.LevNs.XEnd
 
 /-- `a` is the proposer of no rollapp -/
 def NoProp (s : St) (a : Addr) : Prop := ∀ id r, getRa s id = some r → r.proposer ≠ some a
@@ -95,4 +95,4 @@ theorem endBlock_changed_record {s : St} {f : List (Nat × Nat)} {a : Addr} {q q
     injection this with this
     exact hne this
 
-end DymVerif.Core.LevNs
+end DymVerif.Core.LevNs.XEnd
